@@ -115,19 +115,30 @@ def atoms(flt: List[Tuple[str, Tuple]]) -> List[Tuple[str, str, Any]]:
         if op is None:
             raise Malformed(f"unknown operator {opkey[1]!r}")
         if op == "BETWEEN":
+            # ("between", (lo, hi)): a pair.  A str / bytes / scalar argument is not one -- unpacking "ab" into the
+            # characters 'a', 'b' would be a reinterpretation of the filter
             if arg[0] == "val":
-                if isinstance(arg[1], str) and len(arg[1]) == 2:
-                    raise Unjudged("between with a 2-character string")
-                raise Malformed("between needs (lo, hi)")
+                raise Malformed("between needs (lo, hi), not a " + (type(arg[1]).__name__))
             if len(arg[1]) != 2:
                 raise Malformed("between needs exactly (lo, hi)")
             out.append((col, "GE", arg[1][0]))
             out.append((col, "LE", arg[1][1]))
         elif op in ("IS_NULL", "IS_NOT_NULL"):
+            # ("is_null", True) is the documented form.  With the flag False the caller asks for the OPPOSITE test (or
+            # for nothing the language defines): answering with the test itself reinterprets the filter.  Other flags
+            # (None, numbers, ...) are outside the documented language; only cross-API agreement is demanded there.
+            if arg[0] != "val":
+                raise Unjudged("is_null / is_not_null with a list flag")
+            if arg[1] is False:
+                raise Malformed(f"{opkey[1]} with the flag False")
+            if arg[1] is not True:
+                raise Unjudged("is_null / is_not_null with a flag other than True / False")
             out.append((col, op, None))
         elif op in ("IN", "NOT_IN"):
+            # the value set is a list / tuple; a scalar is not a set, and a str / bytes "set" would be read as the set
+            # of its characters / byte values
             if arg[0] == "val":
-                raise Unjudged("in / not_in with a scalar")
+                raise Malformed("in / not_in need a list of values, not a " + (type(arg[1]).__name__))
             out.append((col, op, list(arg[1])))
         else:
             if arg[0] != "val":
